@@ -192,18 +192,26 @@ def fresh_initial(workdir, case, path, version, memo=None):
     return res
 
 
-def compare_states(state, fresh, version, fresh_v2=None, sorts=None):
+def compare_states(state, fresh, version, fresh_v2=None, sorts=None, rejected=()):
     """C14 postcondition.  `state`: model client state; `fresh`: initial message of a newly started server of the
     same protocol version on the saved file; for version 1 `fresh_v2` (initial message of a version-2 server on the
     same file) supplies the visibility that version 1 cannot express.  `sorts` (option name -> type or
-    'choice-member') only refines the class ids.  Returns a list of (class, text)."""
+    'choice-member') and `rejected` (options whose most recent set request did not produce the requested value, e.g.
+    out of range or invisible at that time) only refine the class ids: <channel>:<what>:<sort>[:unwritten-option |
+    :after-rejected-assignment], 'unwritten-option' = the option has no value in the fresh state.  Returns (class, text)s."""
     found = []
     sorts = sorts or {}
 
     class _P(object):
         def append(self, item):
             key = item[1].split("[", 1)[1].split("]", 1)[0]
-            found.append((item[0] + ":" + sorts.get(key, "menu-or-choice"), item[1]))
+            cls = item[0] + ":" + sorts.get(key, "menu-or-choice")
+            if "values:" in item[0] or "defaults:" in item[0]:
+                if key in sorts and key not in fresh.get("values", {}):
+                    cls += ":unwritten-option"
+                elif key in rejected:
+                    cls += ":after-rejected-assignment"
+            found.append((cls, item[1]))
 
     problems = _P()
     if version >= 2:
@@ -237,7 +245,12 @@ def compare_states(state, fresh, version, fresh_v2=None, sorts=None):
                 continue  # version 1 is compared on visible options
             if k not in mine:
                 problems.append(("v1:values:missing", "values[%s]: missing on the client, fresh v1 server %r" % (k, ref[k])))
-            elif mine[k] != ref[k] or type(mine[k]) is not type(ref[k]):
+            elif mine[k] == ref[k] and type(mine[k]) is type(ref[k]):
+                pass
+            elif mine[k] is None or mine[k] is False:
+                problems.append(("v1:values:invisible-marker-on-visible-option",
+                                 "values[%s] (visible): client still holds the invisible marker %r, fresh v1 server %r" % (k, mine[k], ref[k])))
+            else:
                 problems.append(("v1:values:differs-on-visible-option", "values[%s] (visible): client %r, fresh v1 server %r" % (k, mine[k], ref[k])))
         for k in sorted(mine):
             if k not in ref and k not in vis and mine[k] not in (None, False):
@@ -279,11 +292,64 @@ def check_history(workdir, case, memo=None):
     version = case["version"]
     state = client_new(objs[0])
     dirty = False
+    rejected = set()  # classification aid only: options whose latest set / loaded assignment did not take effect
+    sorts = case.get("sorts") or {}
+
+    def note_assignments(text):
+        # assignments of a hand-written configuration file (CONFIG_X=v / # CONFIG_X is not set) against the client
+        for ln in text.splitlines():
+            name, want = None, None
+            if ln.startswith("CONFIG_") and "=" in ln:
+                name, raw = ln[len("CONFIG_"):].split("=", 1)
+                try:
+                    srt = sorts.get(name)
+                    if srt == "int":
+                        want = int(raw)
+                    elif srt == "hex":
+                        want = int(raw, 16)
+                    elif srt == "float":
+                        want = float(raw)
+                    elif srt in ("bool", "choice-member"):
+                        want = raw == "y"
+                    else:
+                        want = raw[1:-1].replace('\\"', '"').replace("\\\\", "\\")
+                except ValueError:
+                    want = raw
+            elif ln.startswith("# CONFIG_") and ln.endswith(" is not set"):
+                name, want = ln[len("# CONFIG_"):-len(" is not set")], False
+            if name in sorts:
+                got = state.get("values", {}).get(name)
+                if got != want or isinstance(got, bool) != isinstance(want, bool):
+                    rejected.add(name)
+                else:
+                    rejected.discard(name)
+
+    note_assignments(case.get("sdk0", ""))
     for i, reply in enumerate(objs[1:]):
         if reply is None:
             break
         req = reqs[i]
         client_apply(state, reply)
+        if isinstance(req, dict):
+            if "load" in req:
+                rejected.clear()
+                if req["load"] is None and not any(isinstance(q.get("load"), str) or isinstance(q.get("save"), str) for q in reqs[:i]):
+                    note_assignments(case.get("sdk0", ""))
+                elif req["load"] in case.get("files", {}):
+                    note_assignments(case["files"][req["load"]])
+            for k, want in (req.get("set") or {}).items():
+                if sorts.get(k) == "hex" and isinstance(want, str):
+                    want = int(want, 16)
+                got = state.get("values", {}).get(k)
+                if got != want or isinstance(got, bool) != isinstance(want, bool):
+                    rejected.add(k)
+                else:
+                    rejected.discard(k)
+            if version >= 3:
+                for k in req.get("reset") or []:
+                    if k == "all":
+                        rejected.clear()
+                    rejected.discard(k)
         if any(reply.get(ch) for ch in CHANNELS):
             dirty = True
         target = req.get("save") if isinstance(req, dict) else None
@@ -303,7 +369,7 @@ def check_history(workdir, case, memo=None):
         if dirty:
             res["nontrivial"].append(i)
         dirty = False
-        for cls, text in compare_states(state, fresh, version, fresh_v2, case.get("sorts")):
+        for cls, text in compare_states(state, fresh, version, fresh_v2, sorts, rejected):
             res["violations"].append((cls, "protocol v%d, after request #%d %s (checkpoint %s): %s" % (version, i, json.dumps(req), target, text)))
     return res
 
@@ -348,6 +414,12 @@ def judge_twin(workdir, case):
         client_apply(state_b, o)
     diffs = []
     config_differs = False
+    if "visible" not in state_a and "visible" not in state_b:
+        # protocol 1 marks invisible options by the value null (replies), false (initial message) or not at all
+        keys = set(state_a.get("values", {})) | set(state_b.get("values", {}))
+        for st in (state_a, state_b):
+            old = st.get("values", {})
+            st["values"] = dict((k, False if old.get(k) is None else old[k]) for k in keys)
     for ch in CHANNELS:
         a, b = state_a.get(ch, {}), state_b.get(ch, {})
         for k in sorted(set(a) | set(b)):
@@ -385,13 +457,9 @@ _SCRIPT_HEAD = '''\
 import io, json, os, shutil, sys, tempfile
 sys.path.insert(0, os.environ.get("PYVC_REPO", "/repo"))
 import kconfserver.core as SRV
-try:
-    from esp_pylib.logger import Verbosity, log
-    log.set_verbosity(Verbosity.SILENT)
-except Exception:
-    pass
 for _v in ("KCONFIG_PARSER_VERSION", "COMPONENT_SDKCONFIG_RENAMES", "KCONFIG_DEFAULTS_POLICY", "IDF_VERSION", "srctree", "CONFIG_"):
     os.environ.pop(_v, None)
+os.environ["KCONFIG_REPORT_VERBOSITY"] = "quiet"  # only silences the library's notes / warnings on stderr
 CHANNELS = %(channels)r
 
 '''
@@ -1183,15 +1251,16 @@ def c15_cases(base, version, state, meta, menu_ids):
         add("set-unknown-option-markup-name", {"version": V, "set": dict(co, **{nm: 1})}, clean, [nm])
     hidden = [n for n in meta["order"] if n not in visible][:3]
     for n in hidden:
-        add("set-invisible-option", {"version": V, "set": dict(co, **{n: _alt_value(types[n], vals.get(n), ranges.get(n), 1)})}, clean, [n])
+        # alone in its request: a co-change could make it visible, and then setting it is legitimate
+        add("set-invisible-option", {"version": V, "set": {n: _alt_value(types[n], vals.get(n), ranges.get(n), 1)}}, {"version": V, "set": {}}, [n])
     # ---- set that is not an object
     for v in ([1], ["B"], "B", None, 5, True, [["B", False]], 1.5):
-        add("set-non-dict", {"version": V, "set": v}, {"version": V}, ["set"])
+        add("set-non-dict", {"version": V, "set": v}, {"version": V}, [""])
     # ---- reset
     some = visible[0] if visible else (meta["order"][0] if meta["order"] else "X")
     if V >= 3:
         for v in ("all", some, 5, None, True, {some: 1}, 1.5):
-            add("reset-non-list", {"version": V, "reset": v}, {"version": V}, ["reset"])
+            add("reset-non-list", {"version": V, "reset": v}, {"version": V}, [""])
         for v in (5, None, [some], {"a": 1}, True, 1.5):
             add("reset-non-string-item", {"version": V, "reset": [some, v]}, {"version": V, "reset": [some]}, ["reset", json.dumps(v)])
         add("reset-unknown-symbol", {"version": V, "reset": [some, "NO_SUCH_OPTION"]}, {"version": V, "reset": [some]}, ["NO_SUCH_OPTION"])
@@ -1277,11 +1346,13 @@ def _c15_tree(task):
             for o in objs3[1:]:
                 client_apply(state, o)
             cases = c15_cases(base, version, state, meta, menu_ids)
+            # valid probe after the offending line (the server keeps serving): the LAST visible non-bool option (the
+            # co-change of the offending request uses the first one), none if there is only one
             probe = {"version": version, "set": {}}
-            for n in meta["order"]:
-                if vis0.get(n) and meta["types"][n] != "bool":
-                    probe["set"][n] = _alt_value(meta["types"][n], vals0.get(n), rng0.get(n), 3)
-                    break
+            nonbool = [n for n in meta["order"] if vis0.get(n) and meta["types"][n] != "bool"]
+            if len(nonbool) > 1:
+                n = nonbool[-1]
+                probe["set"][n] = _alt_value(meta["types"][n], vals0.get(n), rng0.get(n), 5)
             tail = [probe, {"version": version, "save": "final.out"}, {"version": version, "save": None}]
             passed = []
             for c in cases:
@@ -1340,11 +1411,17 @@ def _c15_tree(task):
                 if task.get("subprocess"):
                     sub = _subprocess_session(work, dict(base, version=version), la)
                     res["evals"] += 1
-                    inproc_out, _e, _s2 = session(os.path.join(work, "a"), dict(base, version=version), la)
+                    # main() does not hand --version to run_server(): the real process always starts with protocol 3
+                    inproc_out, _e, _s2 = session(os.path.join(work, "a"), dict(base, version=3), la)
                     for cls, txt in sub["violations"]:
                         res["violations"].setdefault(cls, {"text": txt, "case": None, "count": 0, "size": 10 ** 9})["count"] += 1
                     if not sub["violations"] and sub["stdout"] != inproc_out:
-                        res["error"] = "in-process harness and real process disagree on %s v%d:\n%r\n%r" % (origin, version, sub["stdout"][-600:], inproc_out[-600:])
+                        sl, il = sub["stdout"].split("\n"), inproc_out.split("\n")
+                        j = 0
+                        while j < min(len(sl), len(il)) and sl[j] == il[j]:
+                            j += 1
+                        res["error"] = ("in-process harness and real process disagree on %s v%d at stdout line %d (request %s):\nprocess:    %r\nin-process: %r"
+                                        % (origin, version, j, la[j - 1] if 0 < j <= len(la) else "-", sl[j:j + 1], il[j:j + 1]))
             gen.reset_library_report()
     except Exception:  # noqa: BLE001
         res["error"] = "%s\n%s" % (task.get("origin"), traceback.format_exc())
@@ -1496,22 +1573,29 @@ def run(prop, tier="quick", seed=0, jobs=16):
         if loaded != os.path.realpath(REPO):
             raise RuntimeError("kconfserver imported from %s, not from PYVC_REPO=%s" % (loaded, REPO))
         gen.scrub_env()
-        gen.silence_library_log()
+        _prime_logger()
         cfg = TIERS[tier]
         tasks = _tasks_c14(tier, seed) if prop == "C14" else _tasks_c15(tier, seed)
         worker = _c14_tree if prop == "C14" else _c15_tree
+        gen.silence_library_log()  # again: the first Kconfig() (corpus validation) resets the logger's verbosity
         nsmall = sum(1 for t in tasks if t["origin"].startswith("small"))
         # long tasks first
         order = sorted(range(len(tasks)), key=lambda i: (0 if tasks[i]["origin"].startswith("fx") else 1, i))
         ctx = multiprocessing.get_context("fork")
         _WORK["root"] = tempfile.mkdtemp(prefix="drvsrv")
+        merged = {}
         try:
             with ctx.Pool(max(1, int(jobs)), initializer=_worker_init) as pool:
                 partial = pool.map(worker, [tasks[i] for i in order], chunksize=1)
+                _merge(partial, merged)
+                if prop == "C14":
+                    todo = [cls for cls in sorted(merged) if merged[cls]["case"] is not None and merged[cls]["case"].get("requests")]
+                    for cls, (small, text) in zip(todo, pool.map(_minimize_task, [(merged[cls]["case"], cls) for cls in todo], chunksize=1)):
+                        if text:
+                            merged[cls].update(case=small, text=text)
         finally:
             shutil.rmtree(_WORK["root"], ignore_errors=True)
             _WORK["root"] = None
-        merged = {}
         errors = []
         kinds = {}
         for r in partial:
@@ -1524,24 +1608,12 @@ def run(prop, tier="quick", seed=0, jobs=16):
                     result["samples"].append(s)
             for k, n in r.get("kinds", {}).items():
                 kinds[k] = kinds.get(k, 0) + n
-            for cls, slot in r["violations"].items():
-                m = merged.get(cls)
-                if m is None:
-                    merged[cls] = dict(slot)
-                else:
-                    m["count"] += slot["count"]
-                    if slot.get("size", 10 ** 9) < m.get("size", 10 ** 9):
-                        m.update(text=slot["text"], case=slot["case"], size=slot["size"])
         if errors:
             result["status"] = "checker_error"
             result["reason"] = errors[0][-3000:]
         for cls in sorted(merged):
             slot = merged[cls]
             case, text = slot["case"], slot["text"]
-            if prop == "C14" and case is not None and case.get("requests"):
-                small, t2 = _minimize_c14(case, cls)
-                if t2:
-                    case, text = small, t2
             script = make_script(prop, cls, _script_case(case)) if case is not None else ""
             contract = ("run_server request loop: client state == state reported by a newly started server on the saved file" if prop == "C14"
                         else "run_server request loop: one JSON reply per line, offending part reported, state == twin without the offending part")
@@ -1582,6 +1654,39 @@ def run(prop, tier="quick", seed=0, jobs=16):
         result["reason"] = traceback.format_exc()[-3000:]
     result["seconds"] = round(time.time() - t0, 2)
     return result
+
+
+def _merge(partial, merged):
+    for r in partial:
+        for cls, slot in r["violations"].items():
+            m = merged.get(cls)
+            if m is None:
+                merged[cls] = dict(slot)
+            else:
+                m["count"] += slot["count"]
+                if slot.get("size", 10 ** 9) < m.get("size", 10 ** 9):
+                    m.update(text=slot["text"], case=slot["case"], size=slot["size"])
+
+
+def _minimize_task(arg):
+    try:
+        return _minimize_c14(arg[0], arg[1])
+    except Exception:  # noqa: BLE001 - keep the unminimized case
+        return arg[0], None
+
+
+def _prime_logger():
+    """The first Kconfig() of a process installs the library's own logger at normal verbosity; do that now and
+    silence it afterwards (notes / warnings only; log.err and log.print(file=...) of the server still render)."""
+    d = tempfile.mkdtemp(prefix="drvsrvp")
+    try:
+        with open(os.path.join(d, "Kconfig"), "w") as f:
+            f.write(_MM)
+        with gen.controlled_env():
+            _KCORE.Kconfig(os.path.join(d, "Kconfig"))
+    finally:
+        shutil.rmtree(d, ignore_errors=True)
+    gen.silence_library_log()
 
 
 def _script_case(case):
